@@ -138,6 +138,17 @@ func c13Packets(c *sim.Ctx) ([]mq.Packet, []string) {
 		}
 		c.Count("probe.two-different-packets-over-1MiB")
 	}
+	if c.Run == 77 || (c.Thorough && c.Run%4000 == 77) {
+		// one PUBLISH whose frame exceeds 16 MiB (an encoder may treat such frames
+		// specially, e.g. keep their encode buffer with the packet)
+		pb := mq.NewPublish()
+		pb.SetTopicName("huge")
+		pay := make([]byte, 1<<24+1+t.Int(4096))
+		pay[0], pay[len(pay)-1] = 0xA5, 0x5A
+		pb.SetPayload(pay)
+		ps, hows = []mq.Packet{pb}, []string{"PUBLISH over 16 MiB"}
+		c.Count("probe.packet-over-16MiB-shared-between-goroutines")
+	}
 	return ps, hows
 }
 
@@ -236,10 +247,20 @@ func runC13(c *sim.Ctx) *sim.Violation {
 	streams := make([][]byte, N)
 	plans := make([]*link.Plan, N)
 	wantOwn := make([]Outcome, N)
+	huge := len(hows) == 1 && hows[0] == "PUBLISH over 16 MiB"
+	if huge && N > 3 {
+		N = 3
+	}
 	for g := 0; g < N; g++ {
 		n := 4 + t.Int(29)
+		if huge {
+			n = 3 // every operation copies 16 MiB under the race detector
+		}
 		for k := 0; k < n; k++ {
 			op := c13Op{pkt: t.Int(len(ps)), kind: t.Int(8)}
+			if huge && k < 2 {
+				op.kind = 0 // WriteTo
+			}
 			for j := 0; j < 4; j++ {
 				op.gos = append(op.gos, t.Bool(1, 3))
 			}
